@@ -64,7 +64,9 @@ class VReactor(MemoryReactorClock):
             self.errors = []
         self.rightNow += amount
         self._sortCalls()
-        while self.calls and self.calls[0].getTime() <= self.seconds():
+        # 10 us of tolerance: at the virtual epoch (1e9 s) a double resolves 1.2e-7 s, so whether a
+        # timer set "n ticks ahead" is due after n ticks of 1 ms would otherwise depend on rounding
+        while self.calls and self.calls[0].getTime() <= self.seconds() + 1e-5:
             call = self.calls.pop(0)
             call.called = 1
             try:
@@ -73,6 +75,13 @@ class VReactor(MemoryReactorClock):
                 from twisted.python.failure import Failure
                 self.errors.append(Failure())
             self._sortCalls()
+
+    def _advance_to(self, t):
+        """advance to the absolute time t exactly (rightNow += (t - rightNow) can land one ulp short
+        of t, and then the timer due at t does not run)"""
+        if t > self.rightNow:
+            self.rightNow = t
+        self.advance(0)
 
     def take_errors(self):
         e, self.errors = (self.errors or []), []
@@ -92,16 +101,16 @@ class VReactor(MemoryReactorClock):
 
     def pump_until_idle(self, limit=200000):
         """Run every timer that is due *now* (eventual sends, Cooperator ticks of
-        1e-8 s are treated as due-now by advancing to them when they are < 1 ms away)."""
+        1e-8 s are treated as due-now by advancing to them when they are < 0.5 ms away)."""
         n = 0
         while True:
             calls = self.getDelayedCalls()
             if not calls:
                 return n
             nxt = min(c.getTime() for c in calls)
-            if nxt - self.seconds() > 1e-3:
+            if nxt - self.seconds() > 5e-4:      # strictly below the 1 ms scheduler tick (float noise)
                 return n
-            self.advance(max(0.0, nxt - self.seconds()))
+            self._advance_to(nxt)
             n += 1
             if n > limit:
                 raise RuntimeError("pump_until_idle: livelock (>%d zero-delay timers)" % limit)
@@ -116,7 +125,7 @@ class VReactor(MemoryReactorClock):
         d = self.next_timer_delay()
         if d is None:
             return False
-        self.advance(max(d, 0.0))
+        self._advance_to(min(c.getTime() for c in self.getDelayedCalls()))
         return True
 
     def run_all(self, horizon=10 ** 9, limit=10 ** 6):
